@@ -41,6 +41,21 @@ check('C01', 'proof',
       'Lean 4 proof (span algebra universal over regex behaviour) + recorded-call correspondence + pipeline predicate',
       'DESIGN.md §3 C01')
 
+check('C02', 'proof',
+      'Hidden state made explicit (Env = ambient decimal precision, process-wide cache, history). Proved: cache_transparent '
+      '(warm = cold after any history), recognition_pure (entities are a function of request and query alone: any history, '
+      'cache state, thread precision — every Decimal computation is reached through @precision(15)), interleave_cache (any '
+      'number of threads, any schedule of the atomic dict operations of ModelFactory.get_model: every answer is the '
+      'request\'s own cold answer; double construction possible, foreign model never), decorated_prec_indep / '
+      'digit_value_prec_indep; regression section for the repaired defect (undecorated_prec_dependent: 1/3 at precision 15 '
+      'vs 28). Tie: 120-400 seeded dict-op schedules executed exactly on the real ModelFactory with a semaphore-controlled '
+      'cache dict against the Lean scheduler, and a 1.5k-2.8k tuple pool run cold / warm / permuted / on 1-16 threads / on a '
+      'fresh thread / as single calls against the sequential cold answers.',
+      TB + 'PARTIAL: GIL atomicity of dict get/set, immutability of model objects after construction, preemption inside regex and GC '
+      'are assumptions the model cannot exhibit; the free-running thread runs are validation, not proof.',
+      'Lean 4 proof (non-interference, interleaving invariant) + controlled-schedule and pool correspondence',
+      'DESIGN.md §3 C02')
+
 check('C03', 'proof',
       'Lean model of Python `decimal` under a context (precision p, half-even), `_get_digital_value`, sign handling and '
       '`CultureInfo.format`, with the ten cultures\' parser configurations regenerated from the working tree each run. Proved: '
@@ -225,6 +240,22 @@ check('C05', 'proof',
       'known_findings.json.',
       'Lean 4 proof (first-writer-wins characterisation of bind_dictionary, loop invariants of the key assembly) + exhaustive table correspondence',
       'DESIGN.md §3 C05')
+
+check('C17', 'proof',
+      'Lean model of Culture.map_to_nearest_language, ModelFactory (class-level cache, CacheKey, get_model / try_get_model / '
+      'register_model / initialize_models), Recognizer.get_model, the get_*_model wrappers and constructor option validation, '
+      'over the supported-culture list, the registration table of the five recognisers and the option intervals regenerated '
+      'from the working tree each run. Proved for all culture strings, instances, types, options, fallback flags and any '
+      'str.lower: map_supported_any_case, map_unique_language, map_other_falls_back (the full routing statement), '
+      'no_model_falls_back, cache_key_separation (every history of construct / get / wrapper / factory-get / try-get / init: '
+      'each returned model was built by the constructor registered for exactly the requested type, resolved-or-fallback '
+      'culture and options), same_key_same_object, register_duplicate_rejected, options_out_of_range_rejected; table facts '
+      're-decided by the kernel. Tie: ~24k culture strings, register/option unit checks, a 1.2k-op (3.1k thorough) seeded '
+      'history on instrumented real recognisers predicted exactly incl. object identities, probe sentences.',
+      TB + 'Constructors assumed total and deterministic; user register_model on live recognisers outside the histories; final-sigma '
+      'lower-casing not modelled.',
+      'Lean 4 proof (invariant over operation histories) + regenerated tables + unit and history correspondence',
+      'DESIGN.md §3 C17')
 
 check('C18', 'translation_validation',
       'Exhaustive on every run: the repository\'s own resource generator is re-run on Patterns/*.yaml for every entry of the '
